@@ -1,4 +1,5 @@
 import NavisModel.Model.Swc
+import NavisModel.Model.SwcText
 import NavisModel.Drv.Proto
 /-!
 Line protocol for C07.  Sections of a payload are separated by `|`; the lines of a file travel in the
@@ -12,9 +13,14 @@ Line protocol for C07.  Sections of a payload are separated by `|`; the lines of
 
 Commands
 * `c07.table <options> | <skeleton>`                → model only: `raises=…|rows=…|map=…|valid=…|cond=…|idtopo=…|histvalid=…|wf=…` (`hist…` = the former `sort_values("parent_id")` ordering)
-* `c07.file  <options> | <skeleton> | <impl node map old>new,…> | <file>` → the Lean parser on the real bytes + checkers
+* `c07.file  <options> | <skeleton> | <impl node map old>new,…> | <file>` → the Lean parser on the real bytes + checkers;
+  option `hdrtext=none|c:<code points>` carries the `header=` string: `textok` (bytes = header as the source spells it / the user's
+  string newline-terminated, then `str(k) …` row lines), `hdrok` (every header line `#…` or blank), `dl` (`SwcText.dataLines` of the
+  file = the row lines), `hrows`, `norows`, `hdrprops`; `c07.table` also answers `asw` (table as written = model table) and `depthsw`
 * `c07.parse <options> | <file>`                    → `parse=…|ncols=…|valid=…|rows=…|props=…|soma=…|conns=…|nhdr=…`
 * `c07.sanitised <options> | <file>`                → rows after `sanitise_nodes` (same parser as `c07.parse`)
+* `c07.depths id:parent id:parent …`                → `_node_depths` as written (`nodeDepthsW`), comma separated
+* `c07.fmtcheck <fmt> | <filename> | name=cp,cp;…`  → `1`/`0`: the checker `fmtConsistentB` on the values navis extracted (code points)
 * `c07.fmt <fmt> | <filename>`                      → `file:str=<name>;name:str=<…>;…` or `NOMATCH`
 -/
 namespace Navis.Drv.C07
@@ -24,9 +30,10 @@ def b01 (b : Bool) : String := if b then "1" else "0"
 
 def pow10 (k : Nat) : Nat := 10 ^ k
 
-def isDigits (cs : List Char) : Bool := !cs.isEmpty && cs.all Char.isDigit
+/-- digit test / value of a digit string: the definitions of `Model/SwcText.lean` (`lexInt_intChars` is proved about them) -/
+def isDigits (cs : List Char) : Bool := SwcText.isDigits cs
 
-def digitsToNat (cs : List Char) : Nat := cs.foldl (fun a c => a * 10 + (c.toNat - '0'.toNat)) 0
+def digitsToNat (cs : List Char) : Nat := SwcText.digitsToNat cs
 
 def splitAtChar (p : Char → Bool) (cs : List Char) : List Char × Option (List Char) :=
   match cs.span (fun c => !p c) with
@@ -40,6 +47,10 @@ def lexTok (s : String) : Tok :=
   let s := trim s
   if nanWords.contains s then .nan else
   let cs := s.toList
+  -- integer literals: the verified lexer of `Model/SwcText.lean` (`Props.C07.int_print_lex_round_trip`)
+  match SwcText.lexInt? cs with
+  | some i => .int i
+  | none =>
   let (neg, cs) := match cs with
     | '-' :: r => (true, r)
     | '+' :: r => (false, r)
@@ -146,17 +157,26 @@ def lexLine (delim : String) (raw : String) : Line :=
     else .comment s
   else
     let body := stripComment s
-    if (trim body).isEmpty then .blank
+    -- an empty line is skipped; a line of blanks only (or blanks before a `#`) is a row with one empty field
+    if body.isEmpty then .blank
     else
-      let fields := if delim == " " then words body else (body.splitOn delim).map trim
+      -- `delimiter=" ", skipinitialspace=True`: runs of blanks separate fields, leading blanks are dropped, trailing
+      -- blanks open one more (empty) field
+      let fields := if delim == " " then
+          (let ws := words body
+           if ws.isEmpty then [""] else if body.endsWith " " then ws ++ [""] else ws)
+        else (body.splitOn delim).map trim
       .row (fields.map lexTok)
 
 def fileSep : String := String.singleton (Char.ofNat 0x1e)
 
-def lexFile (delim : String) (s : String) : List Line :=
+/-- The physical lines of a payload.  The harness appends a final piece `$` so that the protocol's trimming of the request
+line cannot eat a trailing `\r` / blank of the last line. -/
+def rawLines (s : String) : List String :=
   let ls := s.splitOn fileSep
-  -- a final newline gives one empty trailing piece
-  (ls.map (lexLine delim))
+  if ls.getLast? == some "$" then ls.dropLast else ls
+
+def lexFile (delim : String) (s : String) : List Line := (rawLines s).map (lexLine delim)
 
 /-! options -/
 structure O where
@@ -164,6 +184,8 @@ structure O where
   wm : WriteMeta := .default
   cfg : ReadCfg := {}
   delim : String := " "
+  /-- `header=<str>` as code points; `none` = generated header -/
+  hdr : Option (List Char) := none
 
 def parseKV (s : String) : Option (String × String) :=
   match s.splitOn ">" with
@@ -203,6 +225,13 @@ def parseOpt (o : O) (w : String) : Option O :=
       | [n, l] => l.toInt?.map fun l => (n, l)
       | _ => none
     ps.map fun c => { o with cfg := { o.cfg with connLabels := c } }
+  | ["hdrtext", v] =>
+    if v == "none" then some { o with hdr := none }
+    else if v.startsWith "c:" then
+      let b := String.ofList (v.toList.drop 2)
+      let cs := if b.isEmpty then some [] else (b.splitOn ",").mapM fun t => t.toNat?.map Char.ofNat
+      cs.map fun cs => { o with hdr := some cs }
+    else none
   | ["readmeta", v] => some { o with cfg := { o.cfg with readMeta := v == "1" } }
   | ["delim", v] => some { o with delim := if v == "comma" then "," else if v == "tab" then "\t" else if v == "semi" then ";" else " " }
   | _ => none
@@ -289,6 +318,49 @@ def showFile (cfg : ReadCfg) (ls : List Line) : String :=
     s!"|soma={showOptInt r.soma}|conns={",".intercalate (r.conns.map fun c => s!"{c.1}:{c.2}")}|nhdr={(headerOf ls).length}" ++
     s!"|labint={b01 (rows.all fun ts => match ts with | _ :: (.int _) :: _ => true | _ => false)}"
 
+/-- A line of the generated header as the source spells it (`‹expr›` = an f-string hole, matches anything) vs a line of the file. -/
+def matchHoles : Nat → List Char → List Char → Bool
+  | 0, _, _ => false
+  | _ + 1, [], line => line.isEmpty
+  | f + 1, c :: r, line =>
+    if c == '‹' then
+      let after := (r.dropWhile (· != '›')).drop 1
+      (List.range (line.length + 1)).any fun k => matchHoles f after (line.drop k)
+    else match line with
+      | d :: l => c == d && matchHoles f r l
+      | [] => false
+
+/-- The row lines of the text: `n` lines, line `j` starts with `str(j+1)` and the delimiter and ends with what precedes `\n` in
+`csv.writer`'s line terminator (`\r`). -/
+def rowsTextOK (rest : List (List Char)) (n : Nat) : Bool :=
+  rest.length == n && rest.zipIdx.all fun (l, j) =>
+    (SwcText.intChars ((j : Nat) + 1 : Int) ++ Gen.Swc.writeDelimiter.toList).isPrefixOf l && SwcText.eolPre.isSuffixOf l
+
+/-- lex a `fmt` pattern: literal text and `{…}` groups (`{a,b:type}` → fields with optional type) -/
+def lexFmt (fuel : Nat) (cs : List Char) (lit : List Char) (acc : List Seg) : List Seg :=
+  match fuel with
+  | 0 => acc.reverse
+  | fuel + 1 =>
+    match cs with
+    | [] => (if lit.isEmpty then acc else (.lit lit.reverse :: acc)).reverse
+    | '{' :: r =>
+      let (inner, after) := r.span (· != '}')
+      match after with
+      | [] => lexFmt fuel r ('{' :: lit) acc     -- no closing brace: literal
+      | _ :: after' =>
+        let acc := if lit.isEmpty then acc else (.lit lit.reverse :: acc)
+        let body := String.ofList (inner.filter (· != ' '))
+        let fields := (body.splitOn ",").filterMap fun p =>
+          if p.isEmpty then none else
+          match p.splitOn ":" with
+          | [n] => some (n, none)
+          | [n, t] => some (n, some t)
+          | _ => some (p, some "?")
+        lexFmt fuel after' [] (.grp fields :: acc)
+    | c :: r => lexFmt fuel r (c :: lit) acc
+
+def lexFmtStr (fmt : String) : List Seg := lexFmt (fmt.length + 2) fmt.toList [] []
+
 def splitN (s : String) (n : Nat) : List String :=
   -- split at the first `n` bars only
   let parts := s.splitOn "|"
@@ -303,6 +375,7 @@ def run (cmd rest : String) : Option String :=
       let tb := makeSwcTable o.op sk
       let th := makeSwcTableHist o.op sk
       pure (s!"raises={b01 (writeRaises o.op sk)}|rows={showRows tb}|map={showMap (nodeMap sk)}|valid={b01 (swcValidB tb)}" ++
+        s!"|asw={b01 (makeSwcTableW o.op sk == tb)}|depthsw={showInts (nodeDepthsW sk.nodes)}" ++
         s!"|cond={b01 (condB sk.nodes)}|idtopo={b01 (idTopoB sk.nodes)}|histvalid={b01 (swcValidB th)}" ++
         s!"|wf={b01 (wfB (forest sk.nodes))}")
     | _ => none
@@ -313,18 +386,47 @@ def run (cmd rest : String) : Option String :=
       let m ← parseMap mp
       let ls := lexFile o.delim file
       let base := showFile o.cfg ls
-      -- header: kinds and props of the generated header
-      let hdrModel := headerLines o.wm o.op sk
-      let hdrOK := (headerOf ls).map lineKind == hdrModel.map lineKind && metaOf ls == metaProps o.wm sk
+      -- header option: generated (with `write_meta`) or the user's string, lexed line by line
+      let raw := (rawLines file).map (·.toList)
+      let n := sk.nodes.length
+      let metaWritten := (metaProps o.wm sk).isSome
+      let (hlText, textHdrOK) : List (List Char) × Bool := match o.hdr with
+        | some h =>
+          let hl := SwcText.lines (SwcText.terminate h)
+          (hl, raw.take hl.length == hl)
+        | none =>
+          let pats := (Gen.Swc.genericHeaderLines.zip Gen.Swc.genericHeaderGates).filterMap fun (l, g) =>
+            if g == "" || (g == "write_meta" && metaWritten) || (g == "export_connectors" && o.op.exportConn) then some l.toList else none
+          let got := raw.take pats.length
+          (got, got.length == pats.length && (pats.zip got).all fun (p, l) => matchHoles (p.length + 1) p l)
+      let rest := raw.drop hlText.length
+      let textok := textHdrOK && rowsTextOK rest n
+      let hdrok := hlText.all fun l => SwcText.isHdr l || SwcText.isBlank l
+      let dl := SwcText.dataLines raw == rest
+      let hrows := SwcText.hdrRows raw == SwcText.hdrRows hlText
+      let hd : Header := match o.hdr with
+        | some _ => .custom (hlText.map fun l => lexLine o.delim (String.ofList l))
+        | none => .generated o.wm
+      let hdrModel := headerFor hd o.op sk
+      let hdrOK := (headerOf ls).map lineKind == (headerOf hdrModel).map lineKind && metaOf ls == metaOf hdrModel
       let agree := match orderFromMap sk.nodes m, parseSwc ls with
         | some ord, some f =>
           s!"mapok=1|sorted={b01 (sortedByDepthB sk.nodes ord)}|parentsorted={b01 (sortedByParentB ord)}|agree={b01 (f.rows == finish (labelOf o.op sk) ord)}" ++
           s!"|mapagree={b01 (m.all fun p => newId ord p.1 == p.2)}|stable={b01 (ord == sortByDepth sk.nodes)}" ++
-          s!"|rt={b01 (some f.rows == (parseSwc (writeWith o.wm o.op sk ord)).map (·.rows))}"
+          s!"|rt={b01 (some f.rows == (parseSwc (writeH hd o.op sk ord)).map (·.rows))}"
         | none, _ => "mapok=0"
         | _, none => "mapok=1|agree=0"
-      pure (base ++ s!"|hdr={b01 hdrOK}|cond={b01 (condB sk.nodes)}|wf={b01 (wfB (forest sk.nodes))}|" ++ agree)
+      pure (base ++ s!"|hdr={b01 hdrOK}|textok={b01 textok}|hdrok={b01 hdrok}|dl={b01 dl}|hrows={b01 hrows}|norows={b01 (noRows hdrModel)}" ++
+        s!"|hdrprops={showProps ((metaOf hdrModel).getD [])}|cond={b01 (condB sk.nodes)}|wf={b01 (wfB (forest sk.nodes))}|" ++ agree)
     | _ => none
+  | "depths" =>
+    -- `_node_depths(ids, parents)` as written, on any table (`id:parent` tokens; cycles / dangling parents allowed)
+    let toks := words rest
+    (toks.mapM fun (w : String) => match w.splitOn ":" with
+      | [i, p] => match i.toInt?, p.toInt? with
+        | some i, some p => some ({ id := i, parent := p } : SNode)
+        | _, _ => none
+      | _ => none).map fun t => showInts (nodeDepthsW t)
   | "parse" => match splitN rest 1 with
     | [o, file] => do
       let o ← parseOpts o
@@ -339,33 +441,19 @@ def run (cmd rest : String) : Option String :=
     | _ => none
   | "fmt" => match splitN rest 1 with
     | [fmt, name] =>
-      let fmt := trim fmt
-      -- lex the pattern: literal text and `{…}` groups
-      let rec lexFmt (fuel : Nat) (cs : List Char) (lit : List Char) (acc : List Seg) : List Seg :=
-        match fuel with
-        | 0 => acc.reverse
-        | fuel + 1 =>
-          match cs with
-          | [] => (if lit.isEmpty then acc else (.lit lit.reverse :: acc)).reverse
-          | '{' :: r =>
-            let (inner, after) := r.span (· != '}')
-            match after with
-            | [] => lexFmt fuel r ('{' :: lit) acc     -- no closing brace: literal
-            | _ :: after' =>
-              let acc := if lit.isEmpty then acc else (.lit lit.reverse :: acc)
-              let body := String.ofList (inner.filter (· != ' '))
-              let fields := (body.splitOn ",").filterMap fun p =>
-                if p.isEmpty then none else
-                match p.splitOn ":" with
-                | [n] => some (n, none)
-                | [n, t] => some (n, some t)
-                | _ => some (p, some "?")
-              lexFmt fuel after' [] (.grp fields :: acc)
-          | c :: r => lexFmt fuel r (c :: lit) acc
-      let segs := lexFmt (fmt.length + 2) fmt.toList [] []
-      match matchFmt segs (trim name) with
+      match matchFmt (lexFmtStr (trim fmt)) (trim name) with
       | none => some "NOMATCH"
       | some ps => some (";".intercalate (ps.map fun p => s!"{p.1}:{p.2.1}={p.2.2}"))
+    | _ => none
+  | "fmtcheck" =>
+    -- `<fmt> | <filename> | name=c,c,c;name=c,c` : the proved checker `fmtConsistentB` on navis' own `parse_filename` values
+    match splitN rest 2 with
+    | [fmt, name, vals] =>
+      let kv : Option (List (String × List Char)) := if (trim vals).isEmpty then some [] else
+        ((trim vals).splitOn ";").mapM fun (t : String) => match t.splitOn "=" with
+          | [k, v] => (if v.isEmpty then some [] else (v.splitOn ",").mapM fun (c : String) => c.toNat?.map Char.ofNat).map fun cs => (k, cs)
+          | _ => none
+      kv.map fun kv => b01 (fmtConsistentB (lexFmtStr (trim fmt)) (fun nm => (kv.find? (·.1 == nm)).map (·.2)) (trim name).toList)
     | _ => none
   | _ => none
 
